@@ -768,7 +768,7 @@ static void pushtypes(JanetBuffer *buffer, int types) {
 
 #define MAX_ITEM  256
 #define FMT_FLAGS "-+ #0"
-#define FMT_REPLACE_INTTYPES "diouxX"
+#define FMT_REPLACE_INTTYPES "diouxXDI"
 #define MAX_FORMAT 32
 
 struct FmtMapping {
